@@ -75,7 +75,7 @@ EXPECTED_BRANCHES_BASE = (['steps/{}/{}'.format(f, n) for f in ('list', 'tuple',
 
 
 def EXPECTED_BRANCHES_ALL(ctx):
-    return list(EXPECTED_BRANCHES_BASE) + direct_branches()
+    return list(EXPECTED_BRANCHES_BASE) + direct_branches() + sorted(set(e[0] for e in edge_cases()))
 MODEL_TOKENS = {'l1', 'l1l2', 'l2', 'l2sq', 'ccl1', 'ccl1l2', 'ccl2sq', 'box', 'const', 'izero', 'linf',
                 'cclinf', 'simplex', 'sumc', 'huber', 'huberg', 'klcc', 'trans', 'argscale', 'lscale', 'quad',
                 'conj', 'sep', 'nil', 'comp'}
@@ -111,6 +111,7 @@ def space_zoo():
         '(rn3^2)^2': odl.ProductSpace(odl.ProductSpace(r3, 2), 2),
         '(discr4^2)^3_cell0.25': odl.ProductSpace(odl.ProductSpace(ud4, 2), 3),
         '(rn2^3)^2': odl.ProductSpace(odl.ProductSpace(odl.rn(2), 3), 2),
+        'rn3^1': odl.ProductSpace(r3, 1),        # one-component product space (edge stream)
     }
     return z
 
@@ -214,6 +215,8 @@ def _bvec(n, b):
     if b is None:
         return '~'
     if np.isscalar(b):
+        if not np.isfinite(b):
+            return '~'       # an infinite bound is no bound (maximum(x, -inf) = x)
         return fl([b] * n)
     return fl(b)
 
@@ -1555,6 +1558,126 @@ def introspect(ctx):
     return found, missing
 
 
+SPACE_KIND = {'rn3': 'tensor', 'rn4': 'tensor', 'rn3_warr': 'weighted', 'rn4_wconst2': 'weighted',
+              'discr4_cell0.25': 'discr', 'rn3^2': 'product', 'rn2^2_pwconst3': 'product-weighted',
+              'rn3^1': 'product1', '(rn3^2)^2': 'matrix'}
+
+
+def edge_cases():
+    """Documented boundary values of every parameter, and points exactly on boundaries / kinks.
+    Deterministic.  Each entry: (stratum, spec, step, x)."""
+    out = []
+
+    def add(cls, param, skey, spec, sg, x):
+        out.append(('edge/{}/{}/{}'.format(cls, param, SPACE_KIND[skey]), spec, sg, [float(v) for v in x]))
+    inf = float('inf')
+    for k in ('rn3', 'discr4_cell0.25', 'rn3_warr'):
+        n = fsize(zoo()[k])
+        z0 = [0.0] * n
+        pat = [1.5, -0.5, 0.25, 2.0][:n]
+        # Huber: gamma = 0 (documented: the L1 norm), kinks |x| = gamma and |x| = gamma + sigma
+        for sg in (0.5, 1.0):
+            add('Huber', 'gamma=0', k, ['Huber', k, 0.0], sg, pat)
+            add('Huber', 'gamma=0,x=kink', k, ['Huber', k, 0.0], sg, [sg, -sg, 0.0, 2 * sg][:n])
+        add('Huber', 'x=gamma', k, ['Huber', k, 0.5], 1.0, [0.5, -0.5, 0.0, 1.5][:n])
+        add('Huber', 'x=gamma+sigma', k, ['Huber', k, 0.5], 1.0, [1.5, -1.5, 0.0, 3.0][:n])
+        add('Huber', 'x=0', k, ['Huber', k, 0.5], 1.0, z0)
+        # L1 kinks and zero vector, with and without data term
+        g = [0.5, -1.0, 0.0, 0.25][:n]
+        add('proximal_l1', 'x=g+-sigma*lam', k, ['proximal_l1', k, 2.0, g], 0.5,
+            [g[0] + 1.0, g[1] - 1.0, g[2], 3.0][:n])
+        add('L1Norm', 'x=kink', k, ['L1Norm', k], 1.0, [1.0, -1.0, 0.0, 2.0][:n])
+        add('L1Norm', 'x=0', k, ['L1Norm', k], 1.0, z0)
+        # tiny / huge steps and factors
+        for sg, nm in ((2.0 ** -20, 'sigma=2^-20'), (2.0 ** 20, 'sigma=2^20')):
+            for cls, spec in (('L1Norm', ['L1Norm', k]), ('L2Norm', ['L2Norm', k]),
+                              ('L2NormSquared', ['L2NormSquared', k]), ('LpNorm(inf)', ['LpNorm', k, 'inf']),
+                              ('Huber', ['Huber', k, 0.5]), ('KullbackLeibler', ['KullbackLeibler', k, None]),
+                              ('KullbackLeiblerConvexConj', ['KullbackLeiblerConvexConj', k, None]),
+                              ('IndicatorLpUnitBall(2)', ['IndicatorLpUnitBall', k, 2])):
+                if cls == 'LpNorm(inf)' and k == 'rn3_warr':
+                    continue    # open finding C07-F1
+                add(cls, nm, k, spec, sg, pat)
+        for lam, nm in ((2.0 ** -10, 'lam=2^-10'), (2.0 ** 10, 'lam=2^10')):
+            for fac in ('proximal_l1', 'proximal_l2', 'proximal_l2_squared', 'proximal_convex_conj_l1',
+                        'proximal_convex_conj_l2', 'proximal_convex_conj_l2_squared',
+                        'proximal_convex_conj_kl'):
+                add(fac, nm, k, [fac, k, lam, None], 1.0, pat)
+        # exponents exactly 1 / 2 / inf: zero vector and a point exactly on the unit sphere
+        w0 = weights(k)[0]
+        for pexp in (1, 2, 'inf'):
+            add('LpNorm', 'exponent={},x=0'.format(pexp), k, ['LpNorm', k, pexp], 1.0, z0)
+            if k != 'rn3_warr':
+                onb = {1: [0.5 / w0, -0.25 / w0, 0.25 / w0], 2: [0.6 / w0 ** 0.5, -0.8 / w0 ** 0.5, 0.0],
+                       'inf': [1.0, -1.0, 0.5]}[pexp]
+                onb = (onb + [0.0] * n)[:n]
+                add('IndicatorLpUnitBall', 'exponent={},x=on-sphere'.format(pexp), k,
+                    ['IndicatorLpUnitBall', k, pexp], 1.0, onb)
+                add('IndicatorLpUnitBall', 'exponent={},x=0'.format(pexp), k,
+                    ['IndicatorLpUnitBall', k, pexp], 1.0, z0)
+        if k != 'rn3_warr':
+            # radius exactly ||x||_1: the Linf proximal returns exactly 0; radius just inside
+            x1 = [1.0, -0.5, 0.5, 0.0][:n]
+            r = sum(abs(v) for v in x1) * w0
+            add('LpNorm(inf)', 'sigma=||x||_1', k, ['LpNorm', k, 'inf'], r, x1)
+            add('LpNorm(inf)', 'sigma>||x||_1', k, ['LpNorm', k, 'inf'], 2 * r, x1)
+        # box: lower == upper, infinite bounds, x in a corner / on a face
+        add('IndicatorBox', 'lower==upper', k, ['IndicatorBox', k, 0.5, 0.5], 1.0, pat)
+        add('IndicatorBox', 'lower=-inf', k, ['IndicatorBox', k, -inf, 1.0], 1.0, pat)
+        add('IndicatorBox', 'upper=inf', k, ['IndicatorBox', k, -0.25, inf], 1.0, pat)
+        add('IndicatorBox', 'x=corner', k, ['IndicatorBox', k, -0.5, 1.25], 1.0,
+            [1.25, -0.5, 1.25, -0.5][:n])
+        add('IndicatorNonnegativity', 'x=0', k, ['IndicatorNonnegativity', k], 1.0, z0)
+        # simplex: ties in the sort, x a vertex, x already in the simplex, zero vector
+        add('IndicatorSimplex', 'ties', k, ['IndicatorSimplex', k, 1], 1.0, [1.0, 1.0, 1.0, 1.0][:n])
+        add('IndicatorSimplex', 'ties2', k, ['IndicatorSimplex', k, 2], 1.0, [0.5, 2.0, 2.0, 0.5][:n])
+        add('IndicatorSimplex', 'x=vertex', k, ['IndicatorSimplex', k, 1], 1.0, [0.0, 1.0, 0.0, 0.0][:n])
+        add('IndicatorSimplex', 'x=in-simplex', k, ['IndicatorSimplex', k, 1], 1.0,
+            ([0.25, 0.5, 0.25] + [0.0] * n)[:n])
+        add('IndicatorSimplex', 'x=0', k, ['IndicatorSimplex', k, 1], 1.0, z0)
+        add('IndicatorSumConstraint', 'x=feasible', k, ['IndicatorSumConstraint', k, 1], 1.0,
+            ([2.0, -1.5, 0.5] + [0.0] * n)[:n])
+        add('IndicatorSumConstraint', 'x=0', k, ['IndicatorSumConstraint', k, 1], 1.0, z0)
+        add('L2Norm', 'x=0', k, ['L2Norm', k], 1.0, z0)
+        add('proximal_l2', 'x=g', k, ['proximal_l2', k, 2.0, g], 1.0, g)
+        add('IndicatorZero', 'x=0', k, ['IndicatorZero', k, 0], 1.0, z0)
+        add('KullbackLeibler', 'x=0', k, ['KullbackLeibler', k, None], 1.0, z0)
+        add('KullbackLeiblerConvexConj', 'x=1(boundary of the domain)', k,
+            ['KullbackLeiblerConvexConj', k, None], 1.0, [1.0] * n)
+    # vector fields: gamma = 0 is the isotropic group L1-L2 norm; one-component product space
+    for k in ('rn3^2', 'rn2^2_pwconst3', 'rn3^1'):
+        sp = zoo()[k]
+        n, d = fsize(sp), len(sp)
+        m = n // d
+        field = [1.5, -0.5, 0.0, 2.0, 1.0, 0.0][:n]          # several non-zero components per point
+        for sg in (0.5, 1.0):
+            add('Huber', 'gamma=0', k, ['Huber', k, 0.0], sg, field)
+        add('Huber', 'x=0', k, ['Huber', k, 0.5], 1.0, [0.0] * n)
+        add('Huber', 'x=0,gamma=0', k, ['Huber', k, 0.0], 1.0, [0.0] * n)
+        pw = pw_of(sp)
+        # pointwise norm exactly gamma + sigma (3-4-5 triangle where there are two components)
+        if d >= 2:
+            kink = [0.0] * n
+            kink[0], kink[m] = 0.9 / pw[0] ** 0.5, 1.2 / pw[1] ** 0.5
+            add('Huber', 'x=gamma+sigma', k, ['Huber', k, 0.5], 1.0, kink)
+            add('GroupL1Norm', 'exponent=2,|x|=sigma', k, ['GroupL1Norm', k, 2], 1.5, kink)
+        add('GroupL1Norm', 'exponent=1', k, ['GroupL1Norm', k, 1], 1.0, field)
+        add('GroupL1Norm', 'exponent=2', k, ['GroupL1Norm', k, 2], 1.0, field)
+        add('GroupL1Norm', 'exponent=2,x=0', k, ['GroupL1Norm', k, 2], 1.0, [0.0] * n)
+        add('IndicatorGroupL1UnitBall', 'exponent=2', k, ['IndicatorGroupL1UnitBall', k, 2], 1.0, field)
+        if k != 'rn2^2_pwconst3':       # open finding C07-F7 on weighted power spaces
+            add('IndicatorGroupL1UnitBall', 'exponent=inf', k, ['IndicatorGroupL1UnitBall', k, 'inf'],
+                1.0, field)
+        add('proximal_l1_l2', 'x=g', k, ['proximal_l1_l2', k, 2.0, field], 1.0, field)
+    k = '(rn3^2)^2'
+    n = fsize(zoo()[k])
+    for q in (1, 2, 'inf'):
+        add('NuclearNorm', 'exponent={},x=0'.format(q), k, ['NuclearNorm', k, q], 1.0, [0.0] * n)
+        add('NuclearNorm', 'exponent={},rank1'.format(q), k, ['NuclearNorm', k, q], 1.0,
+            [1.0, 2.0, 0.0] * 4)
+    return out
+
+
 def iterate_cases(ctx, specs, deep=False, per_spec_sigmas=None):
     rng = ctx.rng
     for spec in specs:
@@ -1598,6 +1721,20 @@ def iterate_cases(ctx, specs, deep=False, per_spec_sigmas=None):
                 yield case, sk, sg, xc, xlist
 
 
+def iterate_edges(ctx):
+    for stratum, spec, sg, xlist in edge_cases():
+        try:
+            case = build(spec)
+        except Exception as e:  # noqa
+            ctx.err('build:' + type(e).__name__)
+            ctx.violation('prox construction {} {}'.format(spec[0], stratum),
+                          'constructing the functional raised {}: {}'.format(
+                              type(e).__name__, str(e)[:200]), {'spec': spec})
+            continue
+        case.spec = spec
+        yield case, 'float', sg, stratum, xlist
+
+
 def run(ctx, deep=False):
     rng = ctx.rng
     _REPORTED.clear()
@@ -1607,8 +1744,12 @@ def run(ctx, deep=False):
     specs += direct_specs(rng, ctx.quick)
     recs, lines = [], []
     seen_labels = set()
-    for case, sk, sg, xc, xlist in iterate_cases(ctx, specs, deep=deep):
+    import itertools
+    for case, sk, sg, xc, xlist in itertools.chain(iterate_cases(ctx, specs, deep=deep),
+                                                   iterate_edges(ctx)):
         crng = _random.Random(rng.getrandbits(32))
+        if xc.startswith('edge/'):
+            ctx.hit(xc)
         lvl = 2 if deep else (0 if (ctx.quick and case.tree is not None) else 1)
         probs, info = check_case(case, sg, xlist, crng, deep=lvl, sk=sk)
         rec = (case, sk, sg, xc, xlist, info, probs)
